@@ -10,11 +10,16 @@ package main
 
 import (
 	"bytes"
+	"context"
 	"fmt"
 	"os"
 	"os/signal"
+	"path"
+	"path/filepath"
 	"strings"
 	"syscall"
+
+	"github.com/frobnitzem/go-p9p/ufs"
 
 	"verifharness/cmd/c15/drv"
 	"verifharness/internal/prng"
@@ -238,7 +243,7 @@ func setupOps(rng *prng.R) []drv.Op {
 func main() {
 	r := rep.Open()
 	defer r.Close()
-	r.Rule = "each case is one ufs session of 25-70 calls on a fresh sandbox: a short set-up (fids at depth 0..3) followed by random Attach/Walk/Create/WStat/Remove/Open/Read/Write/Stat/Clunk calls on fids 0..5, 9 and NOFID; ~30% of walk names, ~35% of create names and ~65% of wstat names are hostile ('..', '.', '', embedded / and \\, absolute, ../ chains longer than the depth, NUL, 255/256/4096-byte names, names of the sandbox's own outside/ directory). A case is non-trivial when it contains at least one hostile name; distinct by canonical case text."
+	r.Rule = "each case is one ufs session of 25-70 calls on a fresh sandbox: a short set-up (fids at depth 0..3) followed by random Attach/Walk/Create/WStat/Remove/Open/Read/Write/Stat/Clunk calls on fids 0..5, 9 and NOFID; ~30% of walk names, ~35% of create names and ~65% of wstat names are hostile ('..', '.', '', embedded / and \\, absolute, ../ chains longer than the depth, NUL, 255/256/4096-byte names, names of the sandbox's own outside/ directory). A case is non-trivial when it contains at least one hostile name; distinct by canonical case text. Before the sessions: fServer.fullPath, FileRef.fullPath and path.Dir on every string of length <= 6 over {/ . a \\} for three export roots (exhaustive grid)."
 	rng := prng.New(r.Seed)
 
 	top, err := os.MkdirTemp("", "verif-c15-")
@@ -256,6 +261,8 @@ func main() {
 			panic(p)
 		}
 	}()
+
+	gridCases(r)
 
 	nseq := r.N(500, 10000)
 	totalHostile, hostileAccepted, opsTotal, escapes := 0, 0, 0, 0
@@ -378,6 +385,53 @@ func main() {
 	r.Extra["ops_with_hostile_name_accepted"] = hostileAccepted
 	r.Extra["max_depth_reached"] = maxDepth
 	r.Extra["escapes_observed"] = escapes
+}
+
+// gridCases: fServer.fullPath / FileRef.fullPath (the only constructors of host
+// paths) and path.Dir on every string of length <= 6 over {/ . a \}, for
+// three export roots.
+func gridCases(r *rep.Report) {
+	sym := []byte{'/', '.', 'a', '\\'}
+	var strs []string
+	var gens func(cur []byte, depth int)
+	gens = func(cur []byte, depth int) {
+		strs = append(strs, string(cur))
+		if depth == 0 {
+			return
+		}
+		for _, a := range sym {
+			gens(append(cur, a), depth-1)
+		}
+	}
+	gens(nil, 6)
+	for _, root := range []string{"/S/export", "/", "/b//x/../y/"} {
+		fs := ufs.NewServer(context.Background(), root)
+		base := filepath.Clean(root)
+		for _, p := range strs {
+			c := sx.L(sx.Sym("fullpath"), sx.Str(root), sx.Str(p))
+			hp, err := ufs.VerifFullPath(fs, p)
+			if err != nil {
+				r.Case(c, sx.L(sx.Sym("err")), "fullpath:err", p != "")
+				if drv.Canonical(p) {
+					r.Fail("ufs.fullPath.reject", fmt.Sprintf("fullPath(%q) with Base %q rejected a canonical internal path", p, base), c, nil)
+				}
+			} else {
+				r.Case(c, sx.L(sx.Sym("ok"), sx.Str(hp)), "fullpath:ok", p != "")
+				inside := hp == base || strings.HasPrefix(hp, strings.TrimSuffix(base, "/")+"/")
+				if !drv.Canonical(p) || !inside || strings.Contains(hp+"/", "/../") {
+					r.Fail("ufs.fullPath.accept", fmt.Sprintf("fullPath(%q) with Base %q = %q: accepted a non-canonical path or left the base", p, base, hp), c, nil)
+				}
+			}
+			if drv.Canonical(p) {
+				c = sx.L(sx.Sym("reffull"), sx.Str(root), sx.Str(p))
+				r.Case(c, sx.Str(ufs.VerifRefFullPath(fs, p)), "reffull", true)
+			}
+		}
+	}
+	for _, p := range strs {
+		r.Case(sx.L(sx.Sym("dir"), sx.Str(p)), sx.Str(path.Dir(p)), "path.Dir", p != "")
+	}
+	r.Extra["grid_strings"] = len(strs)
 }
 
 // hostileOp: the op carries a name that is not a plain single component.
